@@ -190,7 +190,8 @@ def run_attack(case):
     mono = ((st >> bit) & 1).astype(float)
     leak = mono * 4 if att == 'DPA' else hw
     samples, pos = _simulate(rng, leak)
-    bs = [100, 400, n][int(rng.integers(3))]
+    ng_ = 256 if cipher == 'aes' else 64
+    bs = [100, 400, n, ng_, ng_][int(rng.integers(5))]          # incl. batches of exactly as many traces as guesses
     meta = {tag: data}
     ths = scared.traces.read_ths_from_ram(samples=samples, **meta)
     ark = 'AddRoundKey' in case['name']
